@@ -1049,6 +1049,24 @@ class NPProxy:
     def exp(self, a, *args, **kw):
         return np.exp(self._norm(a), *args, **kw)
 
+    def isclose(self, a, b, rtol=1e-05, atol=1e-08, equal_nan=False):
+        """NumPy's definition on exact reals: |a - b| <= atol + rtol * |b| (elementwise; the comparison forks like any other)"""
+        if not (isinstance(a, Sx) or isinstance(b, Sx) or getattr(np.asarray(a), "dtype", None) == object or getattr(np.asarray(b), "dtype", None) == object):
+            return np.isclose(a, b, rtol=rtol, atol=atol, equal_nan=equal_nan)
+        from fractions import Fraction
+        rt, at = Sx(dag.const(Fraction(str(rtol)))), Sx(dag.const(Fraction(str(atol))))
+        one = lambda x, y: bool(abs(x - y) <= at + rt * abs(y))
+        if isinstance(a, Sx) and isinstance(b, Sx):
+            return one(a, b)
+        A, B = np.broadcast_arrays(self._norm(a), self._norm(b))
+        out = np.empty(A.shape, dtype=bool)
+        for idx in np.ndindex(*A.shape):
+            out[idx] = one(A[idx] if isinstance(A[idx], Sx) else Sx(lift(A[idx])), B[idx] if isinstance(B[idx], Sx) else Sx(lift(B[idx])))
+        return out if out.shape else bool(out)
+
+    def allclose(self, a, b, rtol=1e-05, atol=1e-08, equal_nan=False):
+        return bool(np.all(self.isclose(a, b, rtol=rtol, atol=atol, equal_nan=equal_nan)))
+
     def zeros_like(self, a, dtype=None, **kw):
         a = np.asarray(a)
         if dtype is None and a.dtype in (object, np.float64):
